@@ -601,12 +601,6 @@ Builder = buildermod.Builder
 ReturnCode = common.enums.ReturnCode
 
 
-@contract("stepup/core/workflow.py::Workflow.delete_detached", props=[], verify=False,
-          note="deletes detached nodes and queues their files (verified as Trellis.delete_detached / under C07)")
-class wf_delete_detached_assumed:
-    modifies = ["self.to_be_deleted"]
-
-
 @contract("stepup/core/builder.py::Builder._report_counts", props=[], verify=False, note="reporting only")
 class report_counts_assumed:
     modifies = []
